@@ -28,7 +28,7 @@ one() {
   rm -rf $T
 }
 export -f one
-ls -d seeded/C* benign/C* benign/R2-* benign/R3-* benign/R4-* benign/R5-* | xargs -P $J -I{} bash -c 'one {}' | sort > tools/regress.out
+ls -d seeded/C* benign/C* benign/R2-* benign/R3-* benign/R4-* benign/R5-* benign/R6-* | xargs -P $J -I{} bash -c 'one {}' | sort > tools/regress.out
 grep -c DETECTED tools/regress.out | sed 's/^/seeds detected: /'
 grep -c QUIET tools/regress.out | sed 's/^/benign quiet: /'
 grep 'MISSED\|FALSE-ALARM\|STALE\|ERROR' tools/regress.out
